@@ -16,6 +16,7 @@ type tcpLnState struct {
 	queue   []*tcpConnState
 	waiters []*G
 	accepts int
+	deadlineSet bool
 }
 
 type tcpConnState struct {
@@ -136,6 +137,10 @@ func registerNetModel(p *Program) {
 		if st.closed {
 			return TupleV{PtrV{}, e.opError("accept", e.errClosedVal())}
 		}
+		if st.deadlineSet {
+			// an accept deadline in the past: a non-"closed" accept error (i/o timeout)
+			return TupleV{PtrV{}, e.opError("accept", e.timeoutErrVal())}
+		}
 		if len(st.queue) > 0 {
 			c := st.queue[0]
 			st.queue = st.queue[1:]
@@ -147,6 +152,20 @@ func registerNetModel(p *Program) {
 		return blockedResult{}
 	}
 	p.reg("(*net.TCPListener).AcceptTCP", accept)
+	p.reg("(*net.TCPListener).SetDeadline", func(e *Exec, g *G, a []Value) Value {
+		st := e.tcpSt().lns[a[0].(PtrV).C]
+		wall, ext := timeParts(a[1])
+		zero := e.tc.And(e.tc.Eq(wall, e.tc.Const(64, 0)), e.tc.Eq(ext, e.tc.Const(64, 0)))
+		st.deadlineSet = !zero.IsTrue()
+		if st.deadlineSet {
+			ws := st.waiters
+			st.waiters = nil
+			for _, w := range ws {
+				e.wake(w)
+			}
+		}
+		return IfaceV{}
+	})
 	p.reg("(*net.TCPConn).Close", func(e *Exec, g *G, a []Value) Value {
 		st := e.tcpSt().conns[a[0].(PtrV).C]
 		st.closed++
@@ -313,4 +332,11 @@ func (e *Exec) dialCount() uint64 {
 		return v.(*Term).Val
 	}
 	return 0
+}
+
+// timeoutErrVal: an error whose Timeout() is true (os.ErrDeadlineExceeded's dynamic type)
+func (e *Exec) timeoutErrVal() IfaceV {
+	t := types.NewPointer(e.prog.namedType("internal/poll", "DeadlineExceededError"))
+	c := e.newCell(t.Elem())
+	return IfaceV{T: t, V: PtrV{C: c}}
 }
